@@ -9,5 +9,16 @@ VERIF_DIR=$(pwd); export VERIF_DIR
 export GOFLAGS=-mod=mod GOPROXY=off GOTOOLCHAIN=local PATH=/opt/veriftools/go1.26.8/bin:$PATH
 unset GOSUMDB
 mkdir -p bin
+if [ -n "$BKLSYM_REPO" ] && [ "$BKLSYM_REPO" != /repo ]; then
+	# a run against another tree (tools/seedtest.sh): link THAT tree's codec
+	# boundary, through an alternative module file; /repo is not involved
+	alt=$(mktemp -d /tmp/bklsym-alt-XXXXXX)
+	trap 'rm -rf "$alt"' EXIT
+	sed "s|=> /repo\$|=> $BKLSYM_REPO|" engine/go.mod > "$alt/go.mod"
+	cp engine/go.sum "$alt/go.sum"
+	(cd engine && go build -modfile="$alt/go.mod" -o "$alt/bklsym" ./cmd/bklsym) || { echo "engine build failed" >&2; exit 2; }
+	"$alt/bklsym" "$@"
+	exit $?
+fi
 (cd engine && go build -o ../bin/bklsym ./cmd/bklsym) || { echo "engine build failed" >&2; exit 2; }
 exec bin/bklsym "$@"
